@@ -190,6 +190,49 @@ def run(repo, chk):
         r, err = D.try_(lambda: Add(span, D.probe(bad_t), IV(1, span)).evaluate(env0))
         chk.expect(err is not None, 'C07.K2', f'{D.name(bad_t)} + 1', 'arithmetic operands must be int or byte', 'hidc/ast/operators.py')
 
+    # operator typing matrix over operand types
+    numeric = {DT.INT, DT.BYTE}
+    optypes = [DT.INT, DT.BYTE, DT.BOOL, DT.STRING, AT(DT.INT, False), AT(DT.BYTE, True)]
+    truthy = {DT.INT, DT.BYTE, DT.BOOL, DT.STRING, AT(DT.INT, False), AT(DT.BYTE, True)}
+
+    def accepts(cls, *operands):
+        r, err = D.try_(lambda: ns[cls](span, *operands).evaluate(env0))
+        return err is None, r
+    for a in optypes:
+        for b in optypes:
+            pa, pb = D.probe(a, name='p'), D.probe(b, name='q')
+            for cls in ('Add', 'Sub', 'Mul', 'Div', 'Mod', 'Lt', 'Le', 'Gt', 'Ge'):
+                ok, r = accepts(cls, pa, pb)
+                want = a in numeric and b in numeric
+                if ok != want or (ok and r.type != (DT.INT if cls in ('Add', 'Sub', 'Mul', 'Div', 'Mod') else DT.BOOL)):
+                    chk.fail('C07.K2', f'{D.name(a)} {ns[cls].token.value} {D.name(b)}', f'{"accepted" if ok else "rejected"}; arithmetic and '
+                             f'ordering operators take int/byte operands only (expected {"accept" if want else "reject"})', 'hidc/ast/operators.py')
+            for cls in ('Eq', 'Ne'):
+                ok, r = accepts(cls, pa, pb)
+                want = (a in numeric and b in numeric) or (a == DT.BOOL and b == DT.BOOL)
+                if ok != want:
+                    chk.fail('C07.K2', f'{D.name(a)} {ns[cls].token.value} {D.name(b)}', f'{"accepted" if ok else "rejected"}; equality compares two '
+                             f'numbers or two bools (expected {"accept" if want else "reject"})', 'hidc/ast/operators.py')
+            for cls in ('And', 'Or'):
+                ok, r = accepts(cls, pa, pb)
+                want = a in truthy and b in truthy
+                if ok != want or (ok and r.type != DT.BOOL):
+                    chk.fail('C07.K2', f'{D.name(a)} {ns[cls].token.value} {D.name(b)}', f'{"accepted" if ok else "rejected"} (expected '
+                             f'{"accept" if want else "reject"}: every value has a truth value)', 'hidc/ast/operators.py')
+            ok, r = accepts('Speculation', pa, pb)
+            want = a in (DT.INT, DT.BYTE, DT.BOOL) and expected_coercible(D, b, a)
+            if ok != want or (ok and r.type != a):
+                chk.fail('C07.K2', f'{D.name(a)} ?? {D.name(b)}', f'{"accepted" if ok else "rejected"}; expected {"accept" if want else "reject"} '
+                         '(left int/byte/bool, right coercible to the left type)', 'hidc/ast/operators.py')
+        pa = D.probe(a, name='p')
+        for cls, want in (('Neg', a in numeric), ('Pos', a in numeric), ('Not', a in truthy)):
+            ok, r = accepts(cls, pa)
+            if ok != want:
+                chk.fail('C07.K2', f'{ns[cls].token.value} {D.name(a)}', f'{"accepted" if ok else "rejected"}; expected {"accept" if want else "reject"}',
+                         'hidc/ast/operators.py')
+    if not any(v['rule'] == 'C07.K2' and (' ?? ' in v['construct'] or any(f' {t} ' in v['construct'] for t in '+-*/%<>=')) for v in chk.violations):
+        chk.ok('C07.K2', 'operator typing matrix', f'{len(optypes)}x{len(optypes)} operand type pairs x 14 operators')
+
     # ---------------- K4 / K3 assignment ---------------------------------------------------
     AL, Asg, Inc = ns['ArrayLookup'], ns['Assignment'], ns['IncAssignment']
     idx = IV(0, span)
@@ -283,6 +326,11 @@ def run(repo, chk):
         r, err = D.try_(lambda: Ret(span, val).evaluate(e))
         chk.expect((err is None) == ok, 'C07.K3', f'return {"<" + D.name(val.type) + ">" if val is not None else "(nothing)"} in {rt.value} function',
                    f'{"accepted" if err is None else "rejected"}; expected {"accept" if ok else "reject"}', STATEMENTS)
+    # "missing return" is decided by the exit-mode analysis (shared with C16.E1/E3)
+    if chk.__class__.__name__ == 'Check':
+        from . import c16
+        from ..report import Remap
+        c16.run(repo, Remap(chk, {'C16.E1': 'C07.K3', 'C16.E3': 'C07.K3'}))
     # duplicate signatures
     Ident = ns['Ident']
     FD, CB = ns['FuncDeclaration'], ns['CodeBlock']
